@@ -231,7 +231,12 @@ def run_case(ctx, case):
     if case.get("files"):
         libgen.write_files(d, case["files"])
     else:
-        libgen.generate(random.Random(case["libseed"]), "liba", size=case.get("size", 1.0), oddities=True).write(d)
+        if case.get("collide"):
+            from vf.gen import collide
+            collide.generate(random.Random(case["libseed"]), "liba", case["collide"]).write(d)
+        else:
+            libgen.generate(random.Random(case["libseed"]), "liba", size=case.get("size", 1.0), oddities=True,
+                            ext=True).write(d)
     cfg = case["cfg"]
     r, p = libbuild.igate(b, d, "liba", cfg)
     res.count("programs")
@@ -276,4 +281,10 @@ def main(chk):
         for cfg in (CONFIGS if not chk.quick() else rng.sample(CONFIGS, 5)):
             cid += 1
             cases.append(dict(id=cid, libseed=libseed, cfg=cfg, size=0.8))
+    # signatures whose 24-bit hashes collide (the name of an already recorded wrapper must not change)
+    for i in range(chk.pick(6, 40)):
+        cid += 1
+        cases.append(dict(id=cid, libseed=rng.randrange(1 << 30), collide=rng.choice([2, 2, 3]),
+                          cfg=rng.choice([["-c", "-fnames"], ["-c", "-python", "-fnames"], ["-python", "-fnames"],
+                                          ["-c", "-fnames", "-unique-names"]])))
     chk.run_cases(__name__, cases)
